@@ -40,11 +40,11 @@ def is_panic_call(call):
 _DESC = {}
 
 
-def describer(facts, body):
-    k = (id(facts), body.id)
+def describer(facts, body, stop_named=False):
+    k = (id(facts), body.id, stop_named)
     d = _DESC.get(k)
     if d is None:
-        d = Describer(facts, body)
+        d = Describer(facts, body, stop_named=stop_named)
         _DESC[k] = d
     return d
 
@@ -111,8 +111,8 @@ class Branch:
         return '%s:%d' % (self.body.file, self.line)
 
 
-def branches(facts, body):
-    d = describer(facts, body)
+def branches(facts, body, stop_named=False):
+    d = describer(facts, body, stop_named)
     live = body.live_blocks()
     res = []
     for i, b in enumerate(body.blocks):
@@ -437,3 +437,90 @@ def roots(facts, sites):
 
 def root_short(facts, body):
     return facts.root_of(body).short
+
+
+# --------------------------------------------------------------------------
+# value flow (P7)
+# --------------------------------------------------------------------------
+
+def contains_site(d, call):
+    """descriptor d contains the result of the given call site"""
+    for x in walk(d):
+        if x[0] == 'call' and len(x) > 4 and x[4] == call.bb and path_matches(call.f, x[1]) | (short(call.f) == x[1]):
+            return True
+    return False
+
+
+def is_site(d, call):
+    if d[0] == 'phi':
+        return any(is_site(x, call) for x in d[1])
+    return d[0] == 'call' and len(d) > 4 and d[4] == call.bb and short(call.f) == d[1]
+
+
+def contains_site_via_field(d, call, field):
+    for x in walk(d):
+        if x[0] == 'field' and x[2] == field and contains_site(x[1], call):
+            return True
+    return False
+
+
+def flow_sinks(facts, producer, sink_pats, via_field=None, arg=None):
+    """call sites in producer.body (same body only) matching sink_pats with an argument whose descriptor
+    derives from the producer site's result (optionally through `.field`)."""
+    b = producer.body
+    res = []
+    live = b.live_blocks()
+    for c in b.calls():
+        if c.bb not in live or not c.is_(*sink_pats):
+            continue
+        idxs = range(len(c.args)) if arg is None else [arg]
+        for i in idxs:
+            ad = arg_desc(facts, c, i)
+            if (contains_site_via_field(ad, producer, via_field) if via_field else contains_site(ad, producer)):
+                res.append(c)
+                break
+    return res
+
+
+def binding_blocks(facts, producer):
+    """blocks where the payload of an Option/Result produced at `producer` is first bound
+    (`x = (ret as Some).0`, unwrap/expect of it, or the loop variable of an iterator over it)."""
+    b = producer.body
+    d = describer(facts, b)
+    res = set()
+    live = b.live_blocks()
+    for i, j, pl, rv, line in b.assigns():
+        if i not in live or rv[0] != 'use' or rv[1][0] not in ('c', 'm'):
+            continue
+        src = rv[1][1]
+        # projection (.. as Some).0
+        pr = src[1]
+        if len(pr) >= 2 and isinstance(pr[-1], list) and pr[-1][0] == 'f' and pr[-1][1] == '0' \
+                and isinstance(pr[-2], list) and pr[-2][0] == 'v' and pr[-2][1] in ('Some', 'Ok'):
+            base = d.place([src[0], pr[:-2]], i, j)
+            if is_site(base, producer) or (base[0] == 'call' and base[1].endswith('::next') and base[3] and is_site(base[3][0], producer)):
+                res.add(i)
+    for c in b.calls():
+        if c.bb in live and c.is_('Option::unwrap', 'Option::expect', 'Result::unwrap', 'Result::expect') and c.args:
+            if is_site(arg_desc(facts, c, 0), producer):
+                if c.t is not None:
+                    res.add(c.t)
+    return res
+
+
+def flows_always(facts, producer, sink_pats, via_field=None, depth=2):
+    """P7-ALL: returns (sinks, offending_path|None): the producer's payload reaches a sink, and from every
+    binding block every normal path to a return passes such a sink."""
+    b = producer.body
+    sinks = flow_sinks(facts, producer, sink_pats, via_field)
+    if not sinks:
+        return [], None
+    sink_blocks = {c.bb for c in sinks}
+    binds = binding_blocks(facts, producer)
+    for bb in binds:
+        if bb in sink_blocks:
+            continue
+        p = path_avoiding(b, [bb], b.return_blocks(), sink_blocks)
+        if p is not None:
+            return sinks, p
+    return sinks, None
